@@ -91,6 +91,8 @@ def build(tier, seed):
         for off in range(0, step if tier == "thorough" else 2):
             sel = sites[off::step][:25] + EXT_SITES
             tasks.append({"plugin": [dict(s, F=F) for s in sel], "F": F})
+    for F in ([list(CATS), ["fix", "trim"], ["fix"]]):
+        tasks.append({"pyc": True, "F": F})
     return tasks
 
 
@@ -176,7 +178,39 @@ def _judge_plugin(cases):
     return what, {"src": src, "states": [src, s1.get("test_something.py"), s2.get("test_something.py")]}
 
 
+def _judge_pyc_history(case):
+    """A real directory with the bytecode cache ON (the Python default): the source files are dated back, so a rewrite on
+    the unchanged tree always gets a different mtime and pytest's rewritten .pyc (keyed by mtime and size) is invalidated."""
+    import os
+    import time
+    from ..drivers import plugin
+
+    files = {"test_something.py": "from inline_snapshot import snapshot\n\n\ndef test_a():\n    assert 7 == snapshot(3)\n\n\ndef test_b():\n    assert 'xy' == snapshot('ab')\n    assert 5 <= snapshot(9)\n",
+             "pyproject.toml": ""}
+    d = plugin.mk_project(files)
+    try:
+        old = time.time() - 5000
+        os.utime(os.path.join(d, "test_something.py"), (old, old))
+        r0 = plugin.session(d, [], bytecode=True)                       # fills the bytecode cache
+        r1 = plugin.session(d, ["--inline-snapshot=" + ",".join(case["F"])], bytecode=True)
+        s1 = plugin.listing(d, text=True)["test_something.py"]
+        r2 = plugin.session(d, ["--inline-snapshot=" + ",".join(case["F"])], bytecode=True)
+        s2 = plugin.listing(d, text=True)["test_something.py"]
+    finally:
+        plugin.cleanup()
+    if s1 == files["test_something.py"]:
+        return ("harness", "first run changed nothing: " + r1["out"][-300:])
+    if s2 != s1:
+        return ("file-changes-again", _diff(s1, s2))
+    if set(case["F"]) >= {"fix", "trim"} and (r2["rc"] != 0 or plugin.report_sections(r2["out"])):
+        return ("second-run-not-green", "rc=%s sections=%s (stale bytecode of the previous source?)\n%s" % (r2["rc"], plugin.report_sections(r2["out"]), r2["out"][-500:]))
+    return None
+
+
 def run_case(case):
+    if "pyc" in case:
+        w = _judge_pyc_history(case)
+        return [{"case": case, "what": w[0], "detail": w[1]}] if w else []
     if "plugin" in case:
         w, ctx = _judge_plugin(case["plugin"])
         return [{"case": case, "what": w[0], "detail": w[1]}] if w else []
@@ -188,6 +222,10 @@ def _sig(c, v):
 
 
 def run_task(task):
+    if "pyc" in task:
+        vs = run_case(task)
+        return {"n": 1, "nontrivial": [] if vs else ["pyc|%s" % task["F"]], "outcomes": {("viol:" + vs[0]["what"]) if vs else "ok:bytecode-cache-history": 1},
+                "violations": vs, "samples": [], "states": [], "transitions": 3, "validated": 0 if vs else 1}
     if "plugin" in task:
         cases = task["plugin"]
         w, ctx = _judge_plugin(cases)
